@@ -23,7 +23,8 @@ package registration
 //@   nopanic[C03,C14]
 //@   ensures[C03 reject] err != nil ==> ret == nil
 //@   ensures[C03 valid] err == nil ==> ret != nil && fresh(ret) && req != nil && !IsNil(storage) && !opts(opt).Err
-//@   |   && validReq(ret, req, opts(opt).WithNotBeforeClockSkew, opts(opt).WithNotAfterClockSkew, now(0))
+// (the instant is some reading of the clock during the call - not tied to the ordinal of the reading)
+//@   |   && exists t Int :: now(0) <= t && t <= now(last) && validReq(ret, req, opts(opt).WithNotBeforeClockSkew, opts(opt).WithNotAfterClockSkew, t)
 
 // ---------------------------------------------------------------- authorize.go (C01, C04, C13)
 //
@@ -105,7 +106,7 @@ package registration
 //@   ensures[C13,C06 durable] err == nil && !opts(opt).WithSkipStorage ==> StHas("token", ret) && StGet("token", ret).Id == ret
 //@   |   && StGet("token", ret).State == opts(opt).WithState
 //@   ensures[C06 created] err == nil && !opts(opt).WithSkipStorage && opts(opt).WithStorageWrapper == nil ==>
-//@   |   unMts(bytes(StGet("token", ret).CreationTimeMarshaled)) == now(0)
+//@   |   now(0) <= unMts(bytes(StGet("token", ret).CreationTimeMarshaled)) && unMts(bytes(StGet("token", ret).CreationTimeMarshaled)) <= now(last)
 //@   ensures[C06 id] err == nil ==> exists h String, n String :: len(h) == 32 && len(n) == 32 && ret == b58(hmacSum(h, n))
 //@   ensures[C13 othertokens] forall j String :: j != ret ==> unchangedToken(j)
 //@   ensures[C13 failedclean] err != nil ==> forall j String :: StHas("token", j) == old(StHas("token", j))
@@ -130,7 +131,7 @@ package registration
 //@   let k = keyId(certpub)
 //@   nopanic[C14]
 //@   ensures[* failclosed] err != nil ==> ret == nil
-//@   ensures[C03,C01 gate] err == nil ==> req != nil && sigOk(req, opts(opt).WithNotBeforeClockSkew, opts(opt).WithNotAfterClockSkew, now(0))
+//@   ensures[C03,C01 gate] err == nil ==> req != nil && exists t Int :: now(0) <= t && t <= now(last) && sigOk(req, opts(opt).WithNotBeforeClockSkew, opts(opt).WithNotAfterClockSkew, t)
 //@   ensures[C01,C10,* operator] err == nil ==> ret != nil && ret.Id == k && len(nonce) == 32
 //@   |   && (reliable() ==> !old(StHas("nodeinfo", k)) && bytes(ret.RegistrationNonce) == nonce && bytes(ret.CertificatePublicKeyPkix) == certpub)
 //@   ensures[C10,* state] err == nil ==> (fresh(ret) && ret.State == opts(opt).WithState) || (unchangedNode(k) && StHas("nodeinfo", k))
@@ -152,7 +153,7 @@ package registration
 //@   nopanic[C14]
 //@   ensures[* failclosed] err != nil ==> ret == nil
 //@   ensures[* nonnil] err == nil ==> ret != nil && req != nil
-//@   ensures[C03,C01 gate] err == nil ==> sigOk(req, opts(opt).WithNotBeforeClockSkew, opts(opt).WithNotAfterClockSkew, now(0))
+//@   ensures[C03,C01 gate] err == nil ==> exists t Int :: now(0) <= t && t <= now(last) && sigOk(req, opts(opt).WithNotBeforeClockSkew, opts(opt).WithNotAfterClockSkew, t)
 //@   ensures[C01 onlyif] reliable() && err == nil && ret.EncryptedNodeCredentials != nil ==>
 //@   |      (!wrapflow && len(nonce) == 32 && old(StHas("nodeinfo", k)) && bytes(old(StGet("nodeinfo", k)).RegistrationNonce) == nonce
 //@   |         && bytes(old(StGet("nodeinfo", k)).EncryptionPublicKeyBytes) == encpub
